@@ -44,6 +44,14 @@ def build(ctx):
     return True
 
 
+def varied_field(desc):
+    """'field Kind.Field := …' -> Field; '' for line-level cases."""
+    t = desc.split(" ")
+    if len(t) >= 2 and t[0].startswith("field") and "." in t[1]:
+        return t[1].split(".", 1)[1]
+    return ""
+
+
 def valid_corr(ctx, d):
     """(4) the DEFAULT reader: extracted ReaderValid.read_text_valid (dispatch + regenerated record rules + batch
     arithmetic) vs ach.NewReader(...).Read() with default validation on generated valid files of every SEC code,
@@ -66,6 +74,22 @@ def valid_corr(ctx, d):
     rc, out2 = C.sh("%s %s > %s" % (drv, os.path.join(d, "vcases.txt"), os.path.join(d, "vmodel.txt")), timeout=3000)
     if rc != 0:
         ctx.diag.append("extracted validating-reader model crashed: " + out2[-300:])
+    valid_compare(ctx, d, out)
+    # the witnesses of Props/C01Valid.v on the real code (known findings: blank-only mandatory field, creation date)
+    rc, out = C.sh([exe, "witness", "-out", d, "-n", str(ctx.scale(6, 40))], timeout=3000)
+    ctx.log("valid witness", out[-500:])
+    if rc != 0:
+        ctx.diag.append("validating-reader witnesses crashed rc=%d: %s" % (rc, out[-300:]))
+        return
+    before = len(ctx.fails)
+    summ = ctx.read_jsonl(os.path.join(d, "witness.jsonl"))
+    for f in ctx.fails[before:]:
+        f["input"] = f.get("case")
+    ctx.add_summary(summ, "default-reader witnesses")
+
+
+def valid_compare(ctx, d, out=""):
+    """Normalise vmodel.txt / vimpl.txt (see valid_corr) and compare them line by line."""
     try:
         m = open(os.path.join(d, "vmodel.txt")).read().splitlines()
         i = open(os.path.join(d, "vimpl.txt")).read().splitlines()
@@ -101,9 +125,10 @@ def valid_corr(ctx, d):
                 elif u == "1" and any(c.startswith("R:") for c in cl):
                     cnt["skipped_unrecognised_record_rule"] += 1
                     a = b = "SKIP"
-                elif ds[k].startswith("line ") and any(c.startswith("R:") and c[2:] in unknown_fields for c in cl):
-                    # a line-level change: the record type is not known to the harness; the code reports a field
-                    # that an unrecognised check (of some record type) mentions
+                elif any(c.startswith("R:") and c[2:] in unknown_fields and c[2:] != varied_field(ds[k]) for c in cl):
+                    # the code reports a field OTHER than the varied one (a line-level change, or a changed type /
+                    # return / change code made the reader parse the record as another type) that an unrecognised
+                    # check of some record type mentions
                     cnt["skipped_unrecognised_record_rule"] += 1
                     a = b = "SKIP"
         elif at[0] == "ERR" and bt[0] == "ERR":
@@ -134,17 +159,6 @@ def valid_corr(ctx, d):
         ctx.cov["valid_reader_corr"] = json.loads(out.strip().splitlines()[-1])
     except (KeyError, ValueError, IndexError):
         pass
-    # the witnesses of Props/C01Valid.v on the real code (known finding: blank-only mandatory field)
-    rc, out = C.sh([exe, "witness", "-out", d, "-n", str(ctx.scale(6, 40))], timeout=3000)
-    ctx.log("valid witness", out[-500:])
-    if rc != 0:
-        ctx.diag.append("validating-reader witnesses crashed rc=%d: %s" % (rc, out[-300:]))
-        return
-    before = len(ctx.fails)
-    summ = ctx.read_jsonl(os.path.join(d, "witness.jsonl"))
-    for f in ctx.fails[before:]:
-        f["input"] = f.get("case")
-    ctx.add_summary(summ, "default-reader witnesses")
 
 
 def file_corr(ctx, d):
